@@ -166,6 +166,8 @@ def classify(g: dict[str, Any]) -> dict[str, Any]:
             sig["second"] = par["second"]
     elif g["kind"] in ("rpair", "idreshape"):
         sig.update({k: par[k] for k in par})
+    elif g["kind"] == "rchain":
+        sig.update({"k": par["k"], "follow": bool(par["follow"]), "observed_intermediate": bool(par["to"])})
     elif g["kind"] == "castpair":
         sig.update({"src": par["src"], "mid": par["mid"], "observed_intermediate": bool(par["to"]) or bool(par["te"])})
     elif g["kind"] == "mulsig":
